@@ -130,7 +130,8 @@ def summarize(prog, path, adt, depth=0):
     return None, "unrecognised result %s" % path_str(rt)[:120]
 
 
-def transitions(chk, prog, cfg, docs_on):
+def transitions(chk, prog, cfg, docs_on, only=None):
+    """`only`: restrict to the methods with these names (C15 looks at the feature-gated setters only)"""
     chk.rule("R17.1", "every builder method taking and returning the builder carries all slots over from self except the slot it is "
              "named after, which flows from its parameter; `docs` setters are the identity without the docs feature")
     for f in prog.fn_list:
@@ -141,6 +142,8 @@ def transitions(chk, prog, cfg, docs_on):
         if bo is None or bi is None or bo != bi or "impl_trait" in f:
             continue
         name = f["name"]
+        if only is not None and name not in only:
+            continue
         if name in ("field", "field_portable", "variant", "variant_unit", "push_field"):
             continue  # accumulation: R17.3
         b = prog.body(f["path"])
